@@ -137,6 +137,39 @@ impl<'a> NinjaRule<'a> {
             self.deps = NinjaRuleDeps::GCC(expanded)
         }
 
+        self.single_line()
+    }
+
+    /// A ninja value ends at the end of its line. A command or description written as a YAML
+    /// block scalar (`cmd: |`) ends with a line break, which is dropped here; a line break
+    /// anywhere else in a printed value cannot be written and is reported, instead of writing a
+    /// rule block that ninja does not load.
+    pub(crate) fn single_line(mut self) -> anyhow::Result<Self> {
+        let trimmed = self.command.trim_end_matches(['\n', '\r']).to_string();
+        self.command = trimmed.into();
+        if let Some(description) = &self.description {
+            let trimmed = description.trim_end_matches(['\n', '\r']).to_string();
+            self.description = Some(trimmed.into());
+        }
+        let deps = match &self.deps {
+            NinjaRuleDeps::GCC(s) => Some(s.as_str()),
+            _ => None,
+        };
+        for (what, value) in [
+            ("cmd", Some(self.command.as_ref())),
+            ("description", self.description.as_deref()),
+            ("rspfile", self.rspfile.as_deref()),
+            ("rspfile_content", self.rspfile_content.as_deref()),
+            ("pool", self.pool.as_deref()),
+            ("gcc_deps", deps),
+        ] {
+            if value.is_some_and(|value| value.contains('\n')) {
+                return Err(anyhow::anyhow!(
+                    "rule \"{}\": {what} contains a line break",
+                    self.name
+                ));
+            }
+        }
         Ok(self)
     }
 }
